@@ -527,13 +527,17 @@ class Var(Reduction):
             mean_dtype = _sliding_window_variance_mean_dtype(first.real.dtype, out_dtype)
             m2_dtype = _sliding_window_variance_m2_dtype(out_dtype)
             mean = np.array(first.real, dtype=mean_dtype, copy=True)
-            m2 = np.zeros(mean.shape, dtype=m2_dtype)
+            # x - x: 0 for finite x, NaN for NaN/inf (a one-element window never enters the loop)
+            with np.errstate(invalid="ignore"):
+                m2 = np.array(np.abs(mean - mean), dtype=m2_dtype)
             imag_m2 = np.array(first.imag * first.imag, dtype=m2_dtype, copy=True)
         else:
             mean_dtype = _sliding_window_variance_mean_dtype(block.dtype, out_dtype)
             m2_dtype = _sliding_window_variance_m2_dtype(out_dtype)
             mean = np.array(block[tuple(index)], dtype=mean_dtype, copy=True)
-            m2 = np.zeros(mean.shape, dtype=m2_dtype)
+            # x - x: 0 for finite x, NaN for NaN/inf (a one-element window never enters the loop)
+            with np.errstate(invalid="ignore"):
+                m2 = np.array(np.abs(mean - mean), dtype=m2_dtype)
             imag_m2 = None
         count = 1
 
